@@ -351,6 +351,22 @@ fn explore(ctx: &Ctx) -> Outcome {
         .reduce(Tally::new, Tally::merge);
     layers.push(json!({"family": "load → edit (delete subsets × title × sets) → save", "cases": f4.len(), "completed": true}));
     total.absorb(t);
+    // family 5: scale — long messages and many entries (widths beyond 8 and 16 bits)
+    let f5 = scale_cases();
+    let t = f5
+        .par_iter()
+        .fold(Tally::new, |mut t, c| {
+            t.cases += 1;
+            t.nontrivial += 1;
+            if let Some((sig, summary)) = judge(c, &mut t) {
+                let short = Case { cfg: c.cfg, title: c.title.clone(), entries: vec![("scale".into(), format!("{} entries, longest message {} chars", c.entries.len(), c.entries.iter().map(|e| e.1.chars().count()).max().unwrap_or(0)))], loaded: None };
+                t.violate(format!("scale:{}", sig), summary.chars().take(400).collect::<String>(), json!({"scale": case_json(&short)}));
+            }
+            t
+        })
+        .reduce(Tally::new, Tally::merge);
+    layers.push(json!({"family": "scale: messages of 255..70 001 characters, 255..66 000 entries", "cases": f5.len(), "completed": true}));
+    total.absorb(t);
     total.sample(case_json(&f1[f1.len() / 2]));
     total.sample(case_json(&Case { cfg: CFGS[0], title: "T".into(), entries: vec![("K".into(), "\u{FEFF}a".into())], loaded: None }));
     let mut o = total.into_outcome(
@@ -366,7 +382,45 @@ fn explore(ctx: &Ctx) -> Outcome {
     o
 }
 
-fn replay(_ctx: &Ctx, case: &Value) -> Vec<Violation> {
+fn scale_cases() -> Vec<Case> {
+    let mut f5: Vec<Case> = Vec::new();
+    for cfg in CFGS {
+        for n in [255usize, 256, 257, 65_535, 65_536, 70_001] {
+            let unit = if cfg.fmt == Fmt::Unicode { "aé日😀" } else { "a日ｿ" };
+            let m: String = unit.chars().cycle().take(n).collect();
+            f5.push(Case { cfg, title: "T".into(), entries: vec![("before".into(), "b".into()), ("LONG".into(), m), ("after".into(), "a".into())], loaded: None });
+        }
+        // Shift-JIS carried strings (messages of the legacy format; titles and keys of both)
+        // longer than 256 bytes with two-byte characters at every byte alignment
+        for shift in 0..4usize {
+            let long: String = "a".repeat(shift) + &"日本語".repeat(100);
+            let msg = if cfg.fmt == Fmt::ShiftJis { long.clone() } else { "m".to_string() };
+            f5.push(Case { cfg, title: long.clone(), entries: vec![(format!("K{}", long), msg), ("after".into(), "a".into())], loaded: None });
+        }
+        for n in [255usize, 256, 257, 66_000] {
+            f5.push(Case { cfg, title: "many".into(), entries: (0..n).map(|i| (format!("MID_{:05}", i), format!("m{}", i % 97))).collect(), loaded: None });
+        }
+    }
+    f5
+}
+
+fn explore_scale_only(_ctx: &Ctx) -> Vec<Violation> {
+    let mut out = Vec::new();
+    for c in scale_cases() {
+        let mut t = Tally::new();
+        if let Some((sig, summary)) = judge(&c, &mut t) {
+            out.push(Violation { sig: format!("scale:{}", sig), summary: summary.chars().take(400).collect(), case: json!({"scale": true}) });
+        }
+    }
+    out
+}
+
+fn replay(ctx: &Ctx, case: &Value) -> Vec<Violation> {
+    if case.get("scale").is_some() {
+        // scale cases are regenerated: re-run the whole (small) scale family
+        let o = explore_scale_only(ctx);
+        return o;
+    }
     let c = case_from_json(case);
     let mut t = Tally::new();
     match judge(&c, &mut t) {
